@@ -269,7 +269,9 @@ Definition is_valid (p : cproof) (txid : Z) : Z :=
    when in sync, else only at shutdown), the unconfirmed list as of the last TxRepository save (end of every
    completely processed block, shutdown), and the per-height relevant-txid files spynode/txs/<height>,
    written immediately (TxRepository.Add / Remove with a height).
-   n_faults: transactions whose spent outputs the output fetcher currently fails to deliver (environment). *)
+   n_faults: transactions whose spent outputs the output fetcher currently fails to deliver (environment).
+   n_states: the stored client.Tx states (spynode/txs states, SaveTxState / FetchTxState), as far as the
+   merkle proof they carry goes. *)
 Record nstate := NS {
   n_chain : list (Z * mnode);
   n_unconf : list Z;
@@ -279,9 +281,10 @@ Record nstate := NS {
   n_saved_unconf : list Z;
   n_txfiles : list (Z * list Z);
   n_faults : list Z;
+  n_states : list (Z * option cproof);   (* stored tx states (storage, written immediately): txid -> last merkle proof *)
 }.
 
-Definition n_init (insync : bool) : nstate := NS [] [] [] insync [] [] [] [].
+Definition n_init (insync : bool) : nstate := NS [] [] [] insync [] [] [] [] [].
 Definition n_height (s : nstate) : Z := zlen (n_chain s).
 Definition n_tip (s : nstate) : Z := match n_chain s with [] => 0 | h :: _ => fst h end.
 
@@ -314,17 +317,37 @@ Inductive event :=
 | EHeaders (height hid : Z)
 | ETx (kind txid : Z) (proof : option (cproof * Z * Z)).   (* kind 1 HandleTx, 2 HandleTxUpdate; proof, depth, IsValid *)
 
-Definition enc_event (e : event) : list Z :=
+(* the header id of a proof is observed as such only when that header is the node's tip (the harness
+   compares with the header held at the last height), else as -5 *)
+Definition enc_event (tip : Z) (e : event) : list Z :=
   match e with
   | EHeaders h hid => [3; h; hid]
   | ETx k t None => [k; t; 0]
   | ETx k t (Some (p, depth, valid)) =>
-      [k; t; 1; fst (c_hdr p); c_index p; depth; valid; zlen (c_path p)] ++ concat (map enc (c_path p))
-      ++ [zlen (c_dups p)] ++ c_dups p
+      [k; t; 1; (if fst (c_hdr p) =? tip then tip else -5); c_index p; depth; valid; zlen (c_path p)]
+      ++ concat (map enc (c_path p)) ++ [zlen (c_dups p)] ++ c_dups p
   end.
 
 Definition mk_obs (code : Z) (s : nstate) (evs : list event) : obs :=
-  [code; n_height s; n_tip s; zlen evs] ++ concat (map enc_event evs).
+  [code; n_height s; n_tip s; zlen evs] ++ concat (map (enc_event (n_tip s)) evs).
+
+(* stored tx states *)
+Fixpoint get_state (t : Z) (states : list (Z * option cproof)) : option (option cproof) :=
+  match states with
+  | [] => None
+  | (k, p) :: states' => if k =? t then Some p else get_state t states'
+  end.
+Fixpoint set_state (t : Z) (p : option cproof) (states : list (Z * option cproof)) : list (Z * option cproof) :=
+  match states with
+  | [] => [(t, p)]
+  | (k, q) :: states' => if k =? t then (t, p) :: states' else (k, q) :: set_state t p states'
+  end.
+(* every delivered confirmation was saved in the transaction's state first *)
+Definition apply_states (evs : list event) (states : list (Z * option cproof)) : list (Z * option cproof) :=
+  fold_left (fun st e => match e with
+                         | ETx _ t (Some (cp, _, _)) => set_state t (Some cp) st
+                         | _ => st
+                         end) evs states.
 
 (* the registration loop of ProcessBlock over the block's transactions (txid, relevant):
    state = (merkle tree, unconfirmed left, mempool left, txs with is-new flag, tx id file of this height) *)
@@ -333,7 +356,11 @@ Definition block_tx (insync : bool) (st : res (mtree * list Z * list Z * list (Z
   res_bind st (fun '(tree, unconf, mempool, txs, file) =>
     let txid := fst tx in
     let '(in_unconf, unconf1) := remove_hash txid unconf in
-    let '(in_mempool, mempool1) := if insync then remove_hash txid mempool else (false, mempool) in
+    (* in sync: RemoveTransaction; in any case memPool.Conflicting(tx) removes every mempool transaction
+       spending one of its inputs - the transaction itself included - so it leaves the mempool either way;
+       only a node in sync uses "it was in the mempool" for the decision *)
+    let '(was_in_mempool, mempool1) := remove_hash txid mempool in
+    let in_mempool := insync && was_in_mempool in
     let '(tree1, txs1, file1) :=
       if in_unconf then (add_merkle_proof tree txid, txs ++ [(txid, false)], file)
       else if negb in_mempool then
@@ -346,17 +373,20 @@ Definition block_tx (insync : bool) (st : res (mtree * list Z * list Z * list (Z
    spent outputs are fetched before it is delivered; when the fetcher fails ProcessBlock returns the error:
    the notifications sent so far stay sent, the rest of the block is not notified.
    Result: notifications, outcome class. *)
-Fixpoint block_events (hdr : Z * mnode) (faults : list Z) (proofs : list mproof) (i : Z) (txs : list (Z * bool))
-  : list event * Z :=
+Fixpoint block_events (hdr : Z * mnode) (faults : list Z) (states : list (Z * option cproof))
+                      (proofs : list mproof) (i : Z) (txs : list (Z * bool)) : list event * Z :=
   match txs with
   | [] => ([], OK)
   | (txid, isnew) :: txs' =>
+      (* a new transaction: outputs fetched (may fail); a previously seen one: its stored state is fetched
+         (must exist) and then gets THIS block's proof, whatever proof it carried before *)
+      if (if isnew then zmem txid faults else match get_state txid states with None => true | Some _ => false end)
+      then match index proofs i with Ok _ => ([], ERR) | _ => ([], if isnew then PANIC else ERR) end
+      else
       match index proofs i with
       | Ok mp =>
-          if isnew && zmem txid faults then ([], ERR)
-          else
             let cp := convert_merkle_proof mp hdr in
-            let '(evs, code) := block_events hdr faults proofs (i + 1) txs' in
+            let '(evs, code) := block_events hdr faults states proofs (i + 1) txs' in
             (ETx (if isnew then 1 else 2) txid (Some (cp, 0, is_valid cp txid)) :: evs, code)
       | _ => ([], PANIC)
       end
@@ -381,7 +411,9 @@ Definition process_block (s : nstate) (hid prev : Z) (hroot : mnode) (body : lis
     let height := zlen chain1 in
     let hev := EHeaders height hid in
     (* state when ProcessBlock returns early: header added (saved when in sync), unconfirmed list untouched *)
-    let early mempool files := NS chain1 (n_unconf s) mempool (n_insync s) saved1 (n_saved_unconf s) files (n_faults s) in
+    let early mempool files evs :=
+      NS chain1 (n_unconf s) mempool (n_insync s) saved1 (n_saved_unconf s) files (n_faults s)
+         (apply_states evs (n_states s)) in
     match fold_left (block_tx (n_insync s)) body
                     (Ok (new_tree, n_unconf s, n_mempool s, [], get_file height (n_txfiles s))) with
     | Ok (tree, unconf, mempool, txs, file) =>
@@ -389,40 +421,85 @@ Definition process_block (s : nstate) (hid prev : Z) (hroot : mnode) (body : lis
         match finalize tree with
         | Ok (root, proofs) =>
             if negb (match root with Some r => mnode_eqb r hroot | None => false end)
-            then (early mempool files, ERR, [hev])                           (* "Invalid merkle root hash" *)
+            then (early mempool files [], ERR, [hev])                        (* "Invalid merkle root hash" *)
             else
-              let '(evs, code) := block_events (hid, hroot) (n_faults s) proofs 0 txs in
+              let '(evs, code) := block_events (hid, hroot) (n_faults s) (n_states s) proofs 0 txs in
               if code =? OK
-              then (NS chain1 unconf mempool (n_insync s) saved1 unconf files (n_faults s), OK, hev :: evs)
-              else (early mempool files, code, hev :: evs)
-        | Err _ => (early mempool files, ERR, [hev])
-        | Panic => (early mempool files, PANIC, [hev])
+              then (NS chain1 unconf mempool (n_insync s) saved1 unconf files (n_faults s)
+                       (apply_states evs (n_states s)), OK, hev :: evs)
+              else (early mempool files evs, code, hev :: evs)
+        | Err _ => (early mempool files [], ERR, [hev])
+        | Panic => (early mempool files [], PANIC, [hev])
         end
-    | Err _ => (early (n_mempool s) (n_txfiles s), ERR, [hev])
-    | Panic => (early (n_mempool s) (n_txfiles s), PANIC, [hev])
+    | Err _ => (early (n_mempool s) (n_txfiles s) [], ERR, [hev])
+    | Panic => (early (n_mempool s) (n_txfiles s) [], PANIC, [hev])
     end.
 
-(* a transaction arrives unconfirmed (Node.HandleTx -> processUnconfirmedTx): remembered in the mempool;
-   when relevant and not yet delivered it is delivered (no proof) and becomes unconfirmed (in memory).
+(* a transaction arrives unconfirmed (Node.HandleTx -> processUnconfirmedTx).  Known to the mempool: nothing.
+   Else it enters the mempool; irrelevant: dropped from the unconfirmed set; already unconfirmed: nothing;
+   else it becomes unconfirmed (in memory) and
+     - without stored state: a state without proof is created and delivered (HandleTx, depth 1);
+     - with a stored state whose proof names a header still in the chain: "already confirmed", it is taken
+       out of the unconfirmed set again, nothing is delivered;
+     - with any other stored state: that state is saved again and delivered as it is - a proof it carries
+       (of a block reverted since) stays in it, and the unconfirmed depth stays 0 then.
    (Not modelled: an output fetch fault for such a transaction - excluded by c04_valid.) *)
 Definition process_seen (s : nstate) (t : Z) (rel : bool) : nstate * Z * list event :=
   if zmem t (n_mempool s) then (s, OK, [])
   else
-    let upd unconf := NS (n_chain s) unconf (n_mempool s ++ [t]) (n_insync s)
-                         (n_saved_chain s) (n_saved_unconf s) (n_txfiles s) (n_faults s) in
-    if rel && negb (zmem t (n_unconf s))
-    then (upd (n_unconf s ++ [t]), OK, [ETx 1 t None])
-    else (upd (n_unconf s), OK, []).
+    let upd unconf states := NS (n_chain s) unconf (n_mempool s ++ [t]) (n_insync s)
+                                (n_saved_chain s) (n_saved_unconf s) (n_txfiles s) (n_faults s) states in
+    if negb rel then (upd (snd (remove_hash t (n_unconf s))) (n_states s), OK, [])
+    else if zmem t (n_unconf s) then (upd (n_unconf s) (n_states s), OK, [])
+    else
+      match get_state t (n_states s) with
+      | None => (upd (n_unconf s ++ [t]) (set_state t None (n_states s)), OK, [ETx 1 t None])
+      | Some p =>
+          if match p with Some cp => existsb (fun h => fst h =? fst (c_hdr cp)) (n_chain s) | None => false end
+          then (upd (n_unconf s) (n_states s), OK, [])
+          else (upd (n_unconf s ++ [t]) (n_states s), OK,
+                [ETx 1 t (match p with Some cp => Some (cp, 0, is_valid cp t) | None => None end)])
+      end.
 
 (* the Node is dropped and a new one loaded from storage.  graceful: headers and unconfirmed list are saved
    first (shutdown); otherwise a hard crash.  The mempool is gone; insync: state of the new node. *)
 Definition process_restart (s : nstate) (graceful insync : bool) : nstate :=
   let chain := if graceful then n_chain s else n_saved_chain s in
   let unconf := if graceful then n_unconf s else n_saved_unconf s in
-  NS chain unconf [] insync chain unconf (n_txfiles s) (n_faults s).
+  NS chain unconf [] insync chain unconf (n_txfiles s) (n_faults s) (n_states s).
 
 Definition set_faults (s : nstate) (ts : list Z) : nstate :=
-  NS (n_chain s) (n_unconf s) (n_mempool s) (n_insync s) (n_saved_chain s) (n_saved_unconf s) (n_txfiles s) ts.
+  NS (n_chain s) (n_unconf s) (n_mempool s) (n_insync s) (n_saved_chain s) (n_saved_unconf s) (n_txfiles s) ts
+     (n_states s).
+
+(* height of a held header (genesis, id 0, has height 0) *)
+Fixpoint height_in (hid : Z) (chain : list (Z * mnode)) : option Z :=
+  match chain with
+  | [] => if hid =? 0 then Some 0 else None
+  | h :: chain' => if fst h =? hid then Some (zlen chain) else height_in hid chain'
+  end.
+
+(* HeadersHandler, "reorg in processed blocks": the blocks above height r are reverted - their per-height tx
+   id files removed, the header files saved and truncated (BlockRepository.Revert saves first), in-sync
+   cleared.  The unconfirmed set, the mempool and the stored tx states are NOT touched: a transaction of a
+   reverted block keeps the proof of that block in its stored state. *)
+Definition revert_to (s : nstate) (r : Z) : nstate :=
+  let chain := drop (Z.to_nat (zlen (n_chain s) - r)) (n_chain s) in
+  NS chain (n_unconf s) (n_mempool s) false chain (n_saved_unconf s)
+     (filter (fun f => fst f <=? r = true) (n_txfiles s)) (n_faults s) (n_states s).
+
+(* a header hid on prev is announced through the headers handler (no block request pending), then the block
+   is supplied and processed like processBlocks does *)
+Definition process_reorg (s : nstate) (hid prev : Z) (hroot : mnode) (body : list (Z * bool))
+  : nstate * Z * list event :=
+  if prev =? n_tip s then process_block s hid prev hroot body false            (* the next header *)
+  else if existsb (fun h => fst h =? hid) (n_chain s) || (hid =? 0) then (s, ERR, [])   (* already held: not requested *)
+  else match height_in prev (n_chain s) with
+       | Some r => process_block (revert_to s r) hid prev hroot body false     (* competing header: revert *)
+       | None =>                                                               (* unknown parent: in sync cleared *)
+           (NS (n_chain s) (n_unconf s) (n_mempool s) false (n_saved_chain s) (n_saved_unconf s)
+               (n_txfiles s) (n_faults s) (n_states s), ERR, [])
+       end.
 
 Inductive op :=
 | OSeen (t : Z) (rel : bool)
@@ -431,21 +508,27 @@ Inductive op :=
      lie: the block is wrapped in a type whose IsMerkleRootValid answers true without looking (no such
      type exists in the code base; used to exercise the second root comparison of ProcessBlock) *)
 | OFault (ts : list Z)                   (* the output fetcher fails for these transactions from now on *)
-| ORestart (graceful insync : bool).
+| ORestart (graceful insync : bool)
+| OReorg (hid prev : Z) (committed : list Z) (body : list (Z * bool)).
+  (* like OBlock, but the header is first announced through the headers handler: when prev is a held header
+     below the tip the chain is reverted to it *)
 
 (* header root of a block op; an empty committed list has no root: such an op is outside c04_valid *)
 Definition committed_root (committed : list Z) : mnode :=
   match ref_root (map Leaf committed) with Some r => r | None => Leaf (-1) end.
 
-Definition step (s : nstate) (o : op) : nstate * obs :=
+(* one operation: new state, outcome class, notifications *)
+Definition step_ev (s : nstate) (o : op) : nstate * Z * list event :=
   match o with
-  | OSeen t rel => let '(s1, code, evs) := process_seen s t rel in (s1, mk_obs code s1 evs)
-  | OBlock hid prev committed body lie =>
-      let '(s1, code, evs) := process_block s hid prev (committed_root committed) body lie in
-      (s1, mk_obs code s1 evs)
-  | OFault ts => let s1 := set_faults s ts in (s1, mk_obs OK s1 [])
-  | ORestart g i => let s1 := process_restart s g i in (s1, mk_obs OK s1 [])
+  | OSeen t rel => process_seen s t rel
+  | OBlock hid prev committed body lie => process_block s hid prev (committed_root committed) body lie
+  | OFault ts => (set_faults s ts, OK, [])
+  | ORestart g i => (process_restart s g i, OK, [])
+  | OReorg hid prev committed body => process_reorg s hid prev (committed_root committed) body
   end.
+
+Definition step (s : nstate) (o : op) : nstate * obs :=
+  let '(s1, code, evs) := step_ev s o in (s1, mk_obs code s1 evs).
 
 Fixpoint run_from (s : nstate) (ops : list op) : list obs :=
   match ops with
@@ -454,6 +537,10 @@ Fixpoint run_from (s : nstate) (ops : list op) : list obs :=
   end.
 
 Definition run (insync : bool) (ops : list op) : list obs := run_from (n_init insync) ops.
+
+(* the state a history leads to *)
+Definition state_after (insync : bool) (ops : list op) : nstate :=
+  fold_left (fun s o => fst (fst (step_ev s o))) ops (n_init insync).
 
 (* ---------------------------------------------------------------------------------------- *)
 (* vocabulary of the theorems (props/C04.v) *)
@@ -472,6 +559,16 @@ Definition conf_ok (hid : Z) (hroot : mnode) (ids : list Z) (tx : Z * bool) (e :
   exists cp, e = ETx (if snd tx then 1 else 2) (fst tx) (Some (cp, 0, 0)) /\
              c_hdr cp = (hid, hroot) /\ 0 <= c_index cp /\ ids !! Z.to_nat (c_index cp) = Some (fst tx) /\
              is_valid cp (fst tx) = 0.
+
+(* a notification of a block operation is sound: the announcement of that header, or a right confirmation
+   of one of the block's transactions *)
+Definition block_event_ok (hid : Z) (hroot : mnode) (ids : list Z) (e : event) : Prop :=
+  match e with
+  | EHeaders _ h => h = hid
+  | ETx _ _ _ => exists (tx : Z * bool) cp, e = ETx (if snd tx then 1 else 2) (fst tx) (Some (cp, 0, 0)) /\
+                   c_hdr cp = (hid, hroot) /\ 0 <= c_index cp /\ ids !! Z.to_nat (c_index cp) = Some (fst tx) /\
+                   is_valid cp (fst tx) = 0
+  end.
 
 (* the transactions of a block that ProcessBlock notifies, with their is-new flag: one already delivered
    unconfirmed gets a state update; any other relevant one (unless, in sync, it sits in the mempool as a
@@ -632,31 +729,9 @@ Fixpoint check_confs (m : mstate) (hid : Z) (committed : list Z) (complete : boo
       else check_confs m hid committed complete miss body' es
   end.
 
-Definition c04_step (m : mstate) (o : op) (ob : obs) : Z * mstate :=
-  match ob with
-  | code :: height :: tip :: nev :: rest =>
-      match parse_events (Z.to_nat nev) rest with
-      | None => (498, m)
-      | Some es =>
-          match o with
-          | OSeen t rel =>
-              (* outside a block: chain untouched; only new-transaction notifications without proof *)
-              if negb ((height =? m_height m) && (tip =? m_tip m)) then (410, m)
-              else if existsb (fun e => negb ((e_kind e =? 1) && (e_has e =? 0))) es then (410, m)
-              else (0, MS (m_chain m) (map e_txid es ++ m_notified m) (m_maybe m) (m_faults m))
-          | OFault ts =>
-              if (height =? m_height m) && (tip =? m_tip m) && (nev =? 0)
-              then (0, MS (m_chain m) (m_notified m) (m_maybe m) ts) else (410, m)
-          | ORestart graceful _ =>
-              (* the chain the node holds after the restart is what it is observed to hold: a suffix was
-                 lost when headers were not saved; nothing is delivered by a restart *)
-              let k := m_height m - height in
-              if (k <? 0) || negb (nev =? 0) then (430, m) else
-              let chain := drop (Z.to_nat k) (m_chain m) in
-              if negb (tip =? match chain with [] => 0 | h :: _ => fst h end) then (430, m)
-              else if graceful then (0, MS chain (m_notified m) (m_maybe m) (m_faults m))
-              else (0, MS chain [] (m_notified m ++ m_maybe m) (m_faults m))
-          | OBlock hid prev committed body _ =>
+(* a block (header hid on prev, committing to `committed`, delivered with `body`) against monitor state m *)
+Definition c04_block (m : mstate) (code height tip nev : Z) (es : list pevent)
+                     (hid prev : Z) (committed : list Z) (body : list (Z * bool)) : Z * mstate :=
               let fresh := negb (existsb (fun h => fst h =? hid) (m_chain m) || (hid =? 0)) in
               let body_ok := opt_mnode_eqb (ref_root (map Leaf (map fst body))) (ref_root (map Leaf committed)) in
               let faulty := existsb (fun tx => snd tx && zmem (fst tx) (m_faults m)) body in
@@ -697,7 +772,48 @@ Definition c04_step (m : mstate) (o : op) (ob : obs) : Z * mstate :=
                                           (filter (fun t => negb (zmem t relevant) = true) (m_notified m))
                                           (relevant ++ m_maybe m) (m_faults m))
                      | [] => (420, m)
-                     end
+                     end.
+
+Definition c04_step (m : mstate) (o : op) (ob : obs) : Z * mstate :=
+  match ob with
+  | code :: height :: tip :: nev :: rest =>
+      match parse_events (Z.to_nat nev) rest with
+      | None => (498, m)
+      | Some es =>
+          match o with
+          | OSeen t rel =>
+              (* outside a block: chain untouched; only new-transaction notifications without proof *)
+              (* (whether such a notification may carry a proof is not the subject of C04: see
+                 c04_reannounce_monitor) *)
+              if negb ((height =? m_height m) && (tip =? m_tip m)) then (410, m)
+              else if existsb (fun e => negb (e_kind e =? 1)) es then (410, m)
+              else (0, MS (m_chain m) (map e_txid es ++ m_notified m) (m_maybe m) (m_faults m))
+          | OFault ts =>
+              if (height =? m_height m) && (tip =? m_tip m) && (nev =? 0)
+              then (0, MS (m_chain m) (m_notified m) (m_maybe m) ts) else (410, m)
+          | ORestart graceful _ =>
+              (* the chain the node holds after the restart is what it is observed to hold: a suffix was
+                 lost when headers were not saved; nothing is delivered by a restart *)
+              let k := m_height m - height in
+              if (k <? 0) || negb (nev =? 0) then (430, m) else
+              let chain := drop (Z.to_nat k) (m_chain m) in
+              if negb (tip =? match chain with [] => 0 | h :: _ => fst h end) then (430, m)
+              else if graceful then (0, MS chain (m_notified m) (m_maybe m) (m_faults m))
+              else (0, MS chain [] (m_notified m ++ m_maybe m) (m_faults m))
+          | OBlock hid prev committed body _ => c04_block m code height tip nev es hid prev committed body
+          | OReorg hid prev committed body =>
+              (* announced through the headers handler: a header on a held block below the tip makes the
+                 node revert to that block first (the monitor follows: the reverted blocks leave its chain);
+                 then the block is judged like any other *)
+              let fresh := negb (existsb (fun h => fst h =? hid) (m_chain m) || (hid =? 0)) in
+              let m1 :=
+                if fresh && negb (prev =? m_tip m) then
+                  match find_index prev (map fst (m_chain m) ++ [0]) 0 with
+                  | Some k => MS (drop k (m_chain m)) (m_notified m) (m_maybe m) (m_faults m)
+                  | None => m
+                  end
+                else m in
+              c04_block m1 code height tip nev es hid prev committed body
           end
       end
   | _ => (499, m)
@@ -714,37 +830,51 @@ Fixpoint c04_from (m : mstate) (i : Z) (ops : list op) (tr : list obs) : option 
 
 Definition c04_monitor : checker op := fun ops tr => c04_from (MS [] [] [] []) 0 ops tr.
 
+(* an unconfirmed (re-)announcement that carries a merkle proof: the stored state of a transaction whose
+   block was reverted keeps that block's proof, and processUnconfirmedTx delivers it as a new transaction
+   with it (unconfirmed depth 0).  The text of C04 speaks of the notification for a transaction included in
+   a block, so this is reported apart (code 431), not as a C04 failure. *)
+Fixpoint reannounce_from (i : Z) (ops : list op) (tr : list obs) : option (Z * obs) :=
+  match ops, tr with
+  | o :: ops', ob :: tr' =>
+      match o, ob with
+      | OSeen _ _, _ :: _ :: _ :: nev :: rest =>
+          match parse_events (Z.to_nat nev) rest with
+          | Some es => if existsb (fun e => e_has e =? 1) es then Some (i, [431]) else reannounce_from (i + 1) ops' tr'
+          | None => reannounce_from (i + 1) ops' tr'
+          end
+      | _, _ => reannounce_from (i + 1) ops' tr'
+      end
+  | _, _ => None
+  end.
+Definition c04_reannounce_monitor : checker op := fun ops tr => reannounce_from 0 ops tr.
+
 (* hypotheses of the property on a history: txids are non-negative and pairwise distinct inside every
    delivered body and every committed list (this excludes the CVE-2012-2459 shape [a,b,c] ~ [a,b,c,c]),
-   committed lists are non-empty, a txid always carries the same relevance flag, no transaction is
-   re-announced unconfirmed after a block that contains it, a txid belongs to the blocks of one header only
-   (it is confirmed once; the same block may be processed again after a restart), no lying block type, and
-   the injected output-fetch faults never concern a transaction that also arrives unconfirmed *)
+   committed lists are non-empty, a txid always carries the same relevance flag, no lying block type, the
+   injected output-fetch faults never concern a transaction that also arrives unconfirmed, and a block never
+   holds a transaction that is confirmed in a block of the chain the node holds at that moment (a txid is
+   confirmed once per branch; after a reorg or a lost header it may be confirmed again) *)
 Fixpoint nodup_z (l : list Z) : bool :=
   match l with [] => true | x :: l' => negb (zmem x l') && nodup_z l' end.
 
 Definition op_txs (o : op) : list (Z * bool) :=
-  match o with OSeen t rel => [(t, rel)] | OBlock _ _ _ body _ => body | _ => [] end.
+  match o with OSeen t rel => [(t, rel)] | OBlock _ _ _ body _ => body | OReorg _ _ _ body => body | _ => [] end.
 
 Definition flags_consistent (txs : list (Z * bool)) : bool :=
   forallb (fun a => forallb (fun b => negb (fst a =? fst b) || Bool.eqb (snd a) (snd b)) txs) txs.
 
-Definition owner_ok (owner : list (Z * Z)) (hid t : Z) : bool :=
-  forallb (fun e => negb (fst e =? t) || (snd e =? hid)) owner.
+Definition block_shape_ok (hid : Z) (committed : list Z) (body : list (Z * bool)) : bool :=
+  let ids := map fst body in
+  (0 <? hid) && negb (zlen committed =? 0) && nodup_z committed && nodup_z ids
+  && forallb (fun t => 0 <=? t) committed && forallb (fun t => 0 <=? t) ids.
 
-(* owner: (txid, header id) for every txid met in a block op so far *)
-Fixpoint valid_from (owner : list (Z * Z)) (ops : list op) : bool :=
-  match ops with
-  | [] => true
-  | OSeen t _ :: ops' => (0 <=? t) && negb (existsb (fun e => fst e =? t) owner) && valid_from owner ops'
-  | OBlock hid prev committed body lie :: ops' =>
-      let ids := map fst body in
-      negb lie && (0 <? hid) && negb (zlen committed =? 0) && nodup_z committed && nodup_z ids
-      && forallb (fun t => 0 <=? t) committed && forallb (fun t => 0 <=? t) ids
-      && forallb (owner_ok owner hid) (ids ++ committed)
-      && valid_from (map (fun t => (t, hid)) (ids ++ committed) ++ owner) ops'
-  | OFault _ :: ops' => valid_from owner ops'
-  | ORestart _ _ :: ops' => valid_from owner ops'
+Definition op_shape_ok (o : op) : bool :=
+  match o with
+  | OSeen t _ => 0 <=? t
+  | OBlock hid _ committed body lie => negb lie && block_shape_ok hid committed body
+  | OReorg hid _ committed body => block_shape_ok hid committed body
+  | _ => true
   end.
 
 Definition faults_not_seen (ops : list op) : bool :=
@@ -754,4 +884,29 @@ Definition faults_not_seen (ops : list op) : bool :=
                     end) ops.
 
 Definition c04_valid (ops : list op) : bool :=
-  flags_consistent (concat (map op_txs ops)) && valid_from [] ops && faults_not_seen ops.
+  flags_consistent (concat (map op_txs ops)) && forallb op_shape_ok ops && faults_not_seen ops.
+
+(* the part of the hypotheses that depends on the chain the node holds (followed like the monitor does) *)
+Definition not_confirmed_in (chain : list (Z * list Z)) (hid : Z) (body : list (Z * bool)) : bool :=
+  existsb (fun h => fst h =? hid) chain
+  || forallb (fun t => negb (zmem t (concat (map snd chain)))) (map fst body).
+
+Fixpoint valid_chain_from (m : mstate) (ops : list op) (tr : list obs) : bool :=
+  match ops, tr with
+  | o :: ops', ob :: tr' =>
+      (match o with
+       | OBlock hid _ _ body _ => not_confirmed_in (m_chain m) hid body
+       | OReorg hid prev _ body =>
+           let chain := if negb (existsb (fun h => fst h =? hid) (m_chain m) || (hid =? 0)) && negb (prev =? m_tip m)
+                        then match find_index prev (map fst (m_chain m) ++ [0]) 0 with
+                             | Some k => drop k (m_chain m) | None => m_chain m end
+                        else m_chain m in
+           not_confirmed_in chain hid body
+       | _ => true
+       end)
+      && valid_chain_from (snd (c04_step m o ob)) ops' tr'
+  | _, _ => true
+  end.
+
+Definition c04_valid_tr (ops : list op) (tr : list obs) : bool :=
+  c04_valid ops && valid_chain_from (MS [] [] [] []) ops tr.
